@@ -50,7 +50,10 @@ func zzH_C14_handshake() {
 		}
 	}
 	// the server's configuration as the servers build it: a JSON object with only the members that apply
-	cfg := &transferConfig{Newline: "\n", Timeout: 20}
+	cfg := &transferConfig{Newline: "\n"}
+	cfg.Timeout = verifNondetInt() // -t N: zero or less means "never time out"
+	verifAssume(cfg.Timeout >= -1)
+	verifAssume(cfg.Timeout <= 100000)
 	cfg.Binary = verifNondetBool()
 	cfg.Directory = verifNondetBool()
 	cfg.Overwrite = verifNondetBool()
@@ -120,7 +123,7 @@ func zzH_C14_handshake() {
 	fwd = <-r.bypassTmuxChan
 	s, err = decodeRelayBufferString("CFG", zzStripEnd14(fwd))
 	verifAssert(err == nil, "forwarded CFG does not decode")
-	var cfg2 transferConfig
+	cfg2 := transferConfig{Timeout: 20, Newline: "\n", MaxBufSize: 10 * 1024 * 1024} // what a client holds before the CFG arrives
 	verifAssert(json.Unmarshal([]byte(s), &cfg2) == nil, "forwarded CFG does not parse")
 	verifAssert(cfg2.TmuxOutputJunk == (cfg.TmuxOutputJunk || r.tmuxMode == tmuxNormalMode), "tmux junk flag")
 	if cfg.TmuxPaneColumns > 0 {
